@@ -491,8 +491,9 @@ func execPipelineInner(c plCase, x *verifkit.Ctx, accounting, notify, reclaim bo
 		}
 	}()
 	vkResetWall()
-	VerifNoMaintenance.Store(true)
-	defer VerifNoMaintenance.Store(false)
+	if !VerifNoMaintenance.Load() {
+		panic("vkOwnPipeline() must be called at the start of the test")
+	}
 	r.s = NewStore[int, int](&StoreOptions[int, int]{
 		MaxSize: int64(c.MaxSize), EntryPool: c.Pool, Doorkeeper: c.Doorkeeper,
 		Listener: func(k, v int, reason RemoveReason) { r.calls = append(r.calls, plCall{k, v, reason}) },
@@ -663,6 +664,7 @@ var plAssumptions = []string{
 }
 
 func TestVerifC02Pipeline(t *testing.T) {
+	vkOwnPipeline()
 	verifkit.Run(t, verifkit.Spec[plCase]{
 		ID:  "C02",
 		Gen: genPipeline(func(*rapid.T) bool { return false }, true),
@@ -675,6 +677,7 @@ func TestVerifC02Pipeline(t *testing.T) {
 }
 
 func TestVerifC05Pipeline(t *testing.T) {
+	vkOwnPipeline()
 	verifkit.Run(t, verifkit.Spec[plCase]{
 		ID:  "C05",
 		Gen: genPipeline(func(t *rapid.T) bool { return false }, true),
@@ -687,6 +690,7 @@ func TestVerifC05Pipeline(t *testing.T) {
 }
 
 func TestVerifC05Pool(t *testing.T) {
+	vkOwnPipeline()
 	verifkit.Run(t, verifkit.Spec[plCase]{
 		ID:  "C05",
 		Gen: genPipeline(func(t *rapid.T) bool { return true }, true),
@@ -699,6 +703,7 @@ func TestVerifC05Pool(t *testing.T) {
 }
 
 func TestVerifC04Pipeline(t *testing.T) {
+	vkOwnPipeline()
 	verifkit.Run(t, verifkit.Spec[plCase]{
 		ID:  "C04",
 		Gen: genPipeline(func(*rapid.T) bool { return false }, true),
